@@ -167,7 +167,10 @@ func firstLine(s string) string {
 
 func (e *env) runWorld(w *World) (r Render) { return e.runWorldS(w, false) }
 
-func (e *env) runWorldS(w *World, structs bool) (r Render) {
+func (e *env) runWorldS(w *World, structs bool) (r Render) { return e.runWorldH(w, structs, nil) }
+
+// runWorldH: after (if any) continues the history on the live controller once the objects of the world are applied
+func (e *env) runWorldH(w *World, structs bool, after func(v *k8s.VerifC06)) (r Render) {
 	defer func() {
 		if p := recover(); p != nil {
 			r.Panic = fmt.Sprint(p)
@@ -237,6 +240,9 @@ func (e *env) runWorldS(w *World, structs bool) (r Render) {
 		case *conf_v1.TransportServer:
 			note(v.AddTransportServer(x))
 		}
+	}
+	if after != nil {
+		after(v)
 	}
 	r.Attached = v.Attached()
 	if structs {
@@ -380,6 +386,8 @@ func objSet(v any, path, val string) bool {
 
 var corePayloads = []string{
 	";", "{", "}", "#", "\"", "'", "\\", "\r", "\n", "\t", " ", "$", "${", "%\\\"{",
+	// values that are accepted only as long as nobody trims them: backslash-blank endings, leading blanks
+	"\\ ", "\\\t", " \\ ", "\\ \t", " x", "\tx",
 	"; injected on;", "a;b", "a{b", "a}b", "a#b", "a\"b", "a'b", "a\\", "a\\b", "a b", "a\tb", "a\nb", "a\r\nb",
 	" ;", "\n;", "\n}", "{}", "#x\n", "\";", "';", "\\;", "\\\"", "\\\\", "\\\\;", "\";\"", "\"; }", "'; }", "x;}", "};", "}\n}",
 	"$x", "${x}", "${x};", "$x;", "${", "$(x)", "${x", "$;",
@@ -466,7 +474,7 @@ func boundaries(v string) []int {
 }
 
 // boundaryPayloads: what is inserted at the grammar boundaries
-var boundaryPayloads = []string{";", "{", "}", "\"", "\\", " #", "\n;"}
+var boundaryPayloads = []string{"\\ ", ";", "{", "}", "\"", "\\", " #", "\n;"}
 
 // shapePool: values of different grammatical shapes.  For every attacked leaf the REAL validator says which of them
 // the field accepts; the accepted ones (unless the field accepts nearly everything: free text) become additional base
@@ -535,6 +543,7 @@ type Case struct {
 	Path      string `json:"path"`
 	Field     string `json:"field"`
 	Ctx       string `json:"ctx,omitempty"` // context selectors of the leaf (leafContext)
+	History   string `json:"history,omitempty"` // controller-level family: how the value was delivered (see histories.go)
 	Placement string `json:"placement"`
 	PayloadID int    `json:"payload_id"`
 	Value     []int  `json:"value"`
@@ -1040,8 +1049,8 @@ func runJob(e *env, fi int, fx Fixture, plus bool, rng *vh.Rng, thorough bool, b
 				switch {
 				case fieldInstances[nf] == 1 && !w.Secondary:
 					wantShapes, wantBoundaries = true, true
-					payloads = append([]string(nil), corePayloads[:41]...)
-					for _, p := range corePayloads[41:] {
+					payloads = append([]string(nil), corePayloads[:47]...)
+					for _, p := range corePayloads[47:] {
 						if lr.Chance(1, 6) {
 							payloads = append(payloads, p)
 						}
@@ -1416,6 +1425,7 @@ func main() {
 		os.Exit(2)
 	}
 	out.Emit(inventory(covered, annCovered))
+	emitHistories(out, envs, thorough, &id, &baseID)
 	for _, r := range regexRecords() {
 		out.Emit(r)
 	}
@@ -1621,7 +1631,7 @@ func leafContext(o Obj, l Leaf) string {
 // contextPayloads: what a (field, context) pair seen for the first time gets in the quick tier when the
 // field itself was already attacked with the full quick set in another context: the single structural bytes and
 // the classic terminator / quote / escape combinations
-var contextPayloads = []string{";", "{", "}", "#", "\"", "'", "\\", "\n", " ", "$", "${", "; injected on;", "a;b", "a{b", "\";", "\\;", "x;}", "#x\n"}
+var contextPayloads = []string{"\\ ", "\\\t", ";", "{", "}", "#", "\"", "'", "\\", "\n", " ", "$", "${", "; injected on;", "a;b", "a{b", "\";", "\\;", "x;}", "#x\n"}
 
 func stringOf(xs []int) string {
 	b := make([]byte, len(xs))
